@@ -475,9 +475,12 @@ class List(Sequence):
             value = [self._new_slot(item) for item in value]
             list.__setitem__(self, index, value)
             self._renumber()
+        elif isinstance(value, Element):
+            slot = list.__getitem__(self, index)
+            slot.element = value
+            value.parent = slot
         else:
-            slot = self[index]
-            slot.set(value)
+            self[index].set(value)
 
     def __setslice__(self, i, j, sequence):
         return self.__setitem__(slice(i, j), sequence)
